@@ -1115,11 +1115,16 @@ def inverse(x):
     return x._new(out)
 
 
+GENERIC_DISTINCT = False  # set by a translator unit: syntactically different symbols are "not close"
+
+
 def allclose(a, b, rtol=1e-5, atol=1e-8):
     av, bv = np.broadcast_arrays(a.a, b.a)
     for x, y in zip(av.reshape(-1), bv.reshape(-1)):
         if x.same(y):
             continue
+        if GENERIC_DISTINCT and x.op == "var" and y.op == "var":
+            return False
         if x.is_const() and y.is_const():
             if abs(x.value() - y.value()) > atol + rtol * abs(y.value()):
                 return False
@@ -1236,3 +1241,288 @@ def symmat(prefix: str, n: int, m: int, **flags) -> Tensor:
 
 def consttensor(values) -> Tensor:
     return Tensor(_lift_array(values))
+
+
+# ------------------------------------------------------------------------------------------------
+# extensions for the B-spline / finite-difference units (C14, C12) -- appended, nothing above changed
+# ------------------------------------------------------------------------------------------------
+class Generator:  # only used in annotations of deepali.core.image
+    pass
+
+
+class LongTensor(Tensor):  # only used in annotations
+    pass
+
+
+def atleast_1d(x):
+    if not isinstance(x, Tensor):
+        raise TraceError("atleast_1d on non-tensor")
+    return x if x.a.ndim >= 1 else x._new(x.a.reshape(1))
+
+
+def _tile(self, *reps):
+    reps = _shape_arg(reps)
+    return self._new(np.tile(self.a, reps))
+
+
+Tensor.tile = _tile
+
+_idx_before_slice_lists = Tensor._idx
+
+
+def _idx_slice_lists(key):
+    """torch reads a *list* of slices used as an index like the tuple of those slices (deprecated but
+    still accepted by the pinned torch); numpy would refuse it"""
+    if isinstance(key, list) and key and builtins_all(isinstance(k, slice) for k in key):
+        key = tuple(key)
+    return _idx_before_slice_lists(key)
+
+
+Tensor._idx = staticmethod(_idx_slice_lists)
+
+
+def _ntuple(v, n):
+    if isinstance(v, (tuple, list)):
+        if len(v) != n:
+            raise RuntimeError("expected a sequence of length %d" % n)
+        return tuple(builtins_int(t) for t in v)
+    return (builtins_int(v),) * n
+
+
+def _conv_nd(nd, x, w, bias=None, stride=1, padding=0, dilation=1, groups=1):
+    """cross-correlation exactly as torch.nn.functional.conv{1,2,3}d (zero padding, groups)"""
+    if not isinstance(x, Tensor) or not isinstance(w, Tensor):
+        raise TraceError("conv on non-tensor")
+    xa, wa = x.a, w.a
+    _check_init(xa)
+    _check_init(wa)
+    if xa.ndim != nd + 2 or wa.ndim != nd + 2:
+        raise RuntimeError(f"conv{nd}d: expected {nd + 2}-D input and weight, got {xa.ndim}-D and {wa.ndim}-D")
+    if isinstance(padding, str):
+        raise TraceError("conv with string padding")
+    st_, pd, dl = _ntuple(stride, nd), _ntuple(padding, nd), _ntuple(dilation, nd)
+    n_, cin = xa.shape[:2]
+    cout, cg = wa.shape[:2]
+    if cin % groups or cout % groups or cg != cin // groups:
+        raise RuntimeError("conv: channel / groups mismatch")
+    ks = wa.shape[2:]
+    if builtins_any(pd):
+        shp = (n_, cin) + tuple(l + 2 * p for l, p in zip(xa.shape[2:], pd))
+        xp = _full(shp, 0)
+        xp[(slice(None), slice(None)) + tuple(slice(p, p + l) for l, p in zip(xa.shape[2:], pd))] = xa
+    else:
+        xp = xa
+    osz = []
+    for l, k, s, d in zip(xp.shape[2:], ks, st_, dl):
+        o = (l - d * (k - 1) - 1) // s + 1
+        if l - d * (k - 1) - 1 < 0:
+            raise RuntimeError("Kernel size can't be greater than actual input size")
+        osz.append(o)
+    out = np.empty((n_, cout) + tuple(osz), dtype=object)
+    per = cout // groups
+    for n in range(n_):
+        for co in range(cout):
+            g = co // per
+            for oi in np.ndindex(*osz):
+                r = E.const(0)
+                for ci in range(cg):
+                    for ki in np.ndindex(*ks):
+                        pos = tuple(o * s + k * d for o, s, k, d in zip(oi, st_, ki, dl))
+                        r = r + wa[(co, ci) + ki] * xp[(n, g * cg + ci) + pos]
+                if bias is not None:
+                    r = r + bias.a[co]
+                out[(n, co) + oi] = r
+    return x._new(out)
+
+
+def _conv_transpose_nd(nd, x, w, bias=None, stride=1, padding=0, output_padding=0, groups=1, dilation=1):
+    """torch.nn.functional.conv_transpose{1,2,3}d: weight (Cin, Cout/groups, k...); scatter form"""
+    xa, wa = x.a, w.a
+    _check_init(xa)
+    _check_init(wa)
+    if xa.ndim != nd + 2 or wa.ndim != nd + 2:
+        raise RuntimeError(f"conv_transpose{nd}d: expected {nd + 2}-D input and weight")
+    st_, pd, dl, op = _ntuple(stride, nd), _ntuple(padding, nd), _ntuple(dilation, nd), _ntuple(output_padding, nd)
+    n_, cin = xa.shape[:2]
+    if wa.shape[0] != cin or cin % groups:
+        raise RuntimeError("conv_transpose: channel / groups mismatch")
+    cpg = wa.shape[1]
+    cout = cpg * groups
+    ks = wa.shape[2:]
+    for o_, s_, d_ in zip(op, st_, dl):
+        if o_ >= s_ and o_ >= d_:
+            raise RuntimeError("output padding must be smaller than either stride or dilation")
+    full = tuple((l - 1) * s + d * (k - 1) + 1 for l, s, d, k in zip(xa.shape[2:], st_, dl, ks))
+    buf = _full((n_, cout) + tuple(f + o_ for f, o_ in zip(full, op)), 0)
+    ing = cin // groups
+    for n in range(n_):
+        for ci in range(cin):
+            g = ci // ing
+            for co in range(cpg):
+                for ii in np.ndindex(*xa.shape[2:]):
+                    for ki in np.ndindex(*ks):
+                        pos = tuple(i * s + k * d for i, s, k, d in zip(ii, st_, ki, dl))
+                        idx = (n, g * cpg + co) + pos
+                        buf[idx] = buf[idx] + xa[(n, ci) + ii] * wa[(ci, co) + ki]
+    sl = (slice(None), slice(None)) + tuple(slice(p, f + o_ - p) for p, f, o_ in zip(pd, full, op))
+    # output length (l-1)s - 2p + d(k-1) + op + 1: drop p on the left and p on the right of the op-extended buffer
+    out = buf[sl]
+    if bias is not None:
+        raise TraceError("conv_transpose with bias")
+    return x._new(out.copy())
+
+
+def _pad(x, pad, mode="constant", value=None):
+    """torch.nn.functional.pad for modes constant / replicate; pad = (left_last, right_last, left_prev, ...)"""
+    if not isinstance(x, Tensor):
+        raise TraceError("pad on non-tensor")
+    pad = [builtins_int(p) for p in pad]
+    if len(pad) % 2 or len(pad) // 2 > x.a.ndim:
+        raise RuntimeError("Padding length must be divisible by 2 and at most twice the number of dimensions")
+    if builtins_any(p < 0 for p in pad):
+        raise TraceError("negative padding")
+    a = x.a
+    for k in range(len(pad) // 2):
+        ax = a.ndim - 1 - k
+        lo, hi = pad[2 * k], pad[2 * k + 1]
+        if lo == 0 and hi == 0:
+            continue
+        n = a.shape[ax]
+        if mode == "replicate":
+            if n == 0:
+                raise RuntimeError("replicate padding of an empty dimension")
+            idx = [0] * lo + list(range(n)) + [n - 1] * hi
+            a = np.take(a, idx, axis=ax)
+        elif mode == "constant":
+            shp = list(a.shape)
+            shp[ax] = n + lo + hi
+            b = _full(tuple(shp), 0 if value is None else value)
+            sl = [slice(None)] * a.ndim
+            sl[ax] = slice(lo, lo + n)
+            b[tuple(sl)] = a
+            a = b
+        else:
+            raise TraceError(f"pad mode {mode!r} is outside the translator's vocabulary")
+    return x._new(a)
+
+
+for _nd in (1, 2, 3):
+    setattr(_Functional, f"conv{_nd}d", staticmethod((lambda nd: lambda *a, **k: _conv_nd(nd, *a, **k))(_nd)))
+    setattr(_Functional, f"conv_transpose{_nd}d",
+            staticmethod((lambda nd: lambda *a, **k: _conv_transpose_nd(nd, *a, **k))(_nd)))
+_Functional.pad = staticmethod(_pad)
+
+
+def to_coq_q(e: E) -> str:
+    """Coq term of type Q (scope Q_scope) for a rational expression"""
+    if e.op == "const":
+        v = e.args[0]
+        return f"(({v.numerator}) # {v.denominator})"
+    if e.op == "var":
+        return e.args[0]
+    if e.op == "neg":
+        return f"(- {to_coq_q(e.args[0])})"
+    if e.op in ("add", "sub", "mul", "div"):
+        s = {"add": "+", "sub": "-", "mul": "*", "div": "/"}[e.op]
+        return f"({to_coq_q(e.args[0])} {s} {to_coq_q(e.args[1])})"
+    raise TraceError(f"cannot emit {e.op} over Q")
+
+
+# ------------------------------------------------------------------------------------------------
+# extension for the loss functions (C16/C17): in-place square, pointwise torch losses, average pooling
+# ------------------------------------------------------------------------------------------------
+def _square_(self):
+    self.a[...] = (self * self).a
+    return self
+
+
+Tensor.square_ = _square_
+
+
+def _opaque(name):
+    def f(*a, **k):
+        raise TraceError(f"{name} is outside the translator's vocabulary")
+    f.__name__ = name
+    return f
+
+
+# names that deepali modules import at load time but the traced functions never call
+for _n in ("Generator", "LongTensor"):
+    if _n not in globals():
+        globals()[_n] = _opaque("torch." + _n)
+for _n in ("binary_cross_entropy_with_logits", "logsigmoid"):
+    if _n not in vars(_Functional):
+        setattr(_Functional, _n, staticmethod(_opaque("torch.nn.functional." + _n)))
+
+
+def _reduce_like_torch(t, reduction):
+    if reduction == "none":
+        return t
+    if reduction == "sum":
+        return t.sum()
+    if reduction == "mean":
+        return t.mean()
+    raise ValueError(f"{reduction} is not a valid value for reduction")
+
+
+def _f_l1_loss(input, target, reduction="mean"):
+    """|input - target| with an opaque ``abs`` node per element"""
+    d = input - target
+    return _reduce_like_torch(d._new(_un(lambda v: fn("abs", v))(d.a)), reduction)
+
+
+def _f_mse_loss(input, target, reduction="mean"):
+    d = input - target
+    return _reduce_like_torch(d * d, reduction)
+
+
+def _f_avg_pool(D):
+    def pool(x, kernel_size, stride=None, padding=0, ceil_mode=False, count_include_pad=True,
+             divisor_override=None):
+        if ceil_mode:
+            raise TraceError("avg_pool with ceil_mode")
+        if x.a.ndim != D + 2:
+            raise TraceError(f"avg_pool{D}d on tensor of rank {x.a.ndim}")
+        tup = lambda v: (v,) * D if isinstance(v, builtins_int) else tuple(v)
+        k = tup(kernel_size)
+        s = k if stride is None else tup(stride)
+        p = tup(padding)
+        if len(k) != D or len(s) != D or len(p) != D:
+            raise TraceError("avg_pool argument length")
+        for kk, pp in zip(k, p):
+            if pp * 2 > kk:
+                raise RuntimeError("pad should be at most half of effective kernel size")
+        n = x.a.shape[2:]
+        on = tuple((n[d] + 2 * p[d] - k[d]) // s[d] + 1 for d in range(D))
+        out = np.empty(x.a.shape[:2] + on, dtype=object)
+        for o in np.ndindex(*on):
+            lo = [o[d] * s[d] - p[d] for d in range(D)]
+            hi = [min(lo[d] + k[d], n[d] + p[d]) for d in range(D)]
+            pool_size = 1
+            for d in range(D):
+                pool_size *= hi[d] - lo[d]
+            lo_c = [max(lo[d], 0) for d in range(D)]
+            hi_c = [min(hi[d], n[d]) for d in range(D)]
+            count = 1
+            for d in range(D):
+                count *= max(hi_c[d] - lo_c[d], 0)
+            if divisor_override is not None:
+                div = divisor_override
+            elif count_include_pad:
+                div = pool_size
+            else:
+                div = count
+            for b in np.ndindex(*x.a.shape[:2]):
+                acc = E.const(0)
+                for j in itertools.product(*[range(lo_c[d], hi_c[d]) for d in range(D)]):
+                    acc = acc + x.a[b + tuple(j)]
+                out[b + o] = acc / div
+        return x._new(out)
+    pool.__name__ = f"avg_pool{D}d"
+    return staticmethod(pool)
+
+
+for _n, _f in (("l1_loss", staticmethod(_f_l1_loss)), ("mse_loss", staticmethod(_f_mse_loss)),
+               ("avg_pool1d", _f_avg_pool(1)), ("avg_pool2d", _f_avg_pool(2)), ("avg_pool3d", _f_avg_pool(3))):
+    if _n not in vars(_Functional):
+        setattr(_Functional, _n, _f)
